@@ -12,6 +12,7 @@
   `l[1]`, `l[2]` holding null — the only other positions that change, from absent to null.
 -/
 import YtkProofs.Builder
+import YtkProofs.GapBuilder
 import YtkProofs.LensIdx
 import YtkProofs.ValidB
 import YtkProofs.HeapBuilder
@@ -788,5 +789,119 @@ theorem nonvacuous_heap_run_panic :
 
 end heap
 
+
+end Ytk.C03
+
+/-! ## gap7a: the laws on the path STRINGS the driver runs, below-the-write, list steps of a history -/
+namespace Ytk.C03
+
+/-- remove-get on path strings (`lookup` / `removeAt` are what the driver executes; `lookup_removeAt`
+    above is the same on component lists): after `RemoveAt(path)`, `Lookup(path)` finds nothing — when
+    the last component carries no index group (remove paths end in a key). -/
+theorem lookup_removeAt_str (d : AMap Node) (path : String) (hv : (Node.cont d).Valid)
+    (hl : ∀ l, (splitPath path).getLast? = some l → hasIdxSuffix l = false) :
+    lookup (removeAt d path) path = none := by
+  by_cases hp : path = ""
+  · simp [lookup, hp]
+  · simp only [lookup, if_neg hp, removeAt]
+    exact lookupSegs_removeAtSegs_self _ d hv (splitPath_ne_nil path) hl
+
+/-- the side condition is needed at value level too: `RemoveAt("l[0]")` is Go's `delete` on the LITERAL
+    key `l[0]`, which no container built through the API has — nothing is removed and `Lookup("l[0]")`
+    still finds the item. -/
+theorem lookup_removeAt_index_counterexample :
+    (Node.cont [("l", .list [.leaf ⟨"int", "1"⟩])]).Valid ∧
+    removeAt [("l", .list [.leaf ⟨"int", "1"⟩])] "l[0]" = [("l", .list [.leaf ⟨"int", "1"⟩])] ∧
+    lookup (removeAt [("l", .list [.leaf ⟨"int", "1"⟩])] "l[0]") "l[0]" = some (.leaf ⟨"int", "1"⟩) :=
+  ⟨Node.validB_sound _ (by decide +kernel), by decide +kernel, by decide +kernel⟩
+
+/-- frame (write) on path strings: nothing changes at a path that diverges by key from the written one -/
+theorem addValueAt_frame_str (d : AMap Node) (p q : String) (v : Node) (h : Diverge (splitPath p) (splitPath q)) :
+    lookup (addValueAt d p v) q = lookup d q := by
+  by_cases hq : q = ""
+  · simp [lookup, hq]
+  · simp only [lookup, if_neg hq, addValueAt]
+    exact lookupSegs_addAtSegs_frame _ _ d v h
+
+/-- frame (write) on path strings, every pair of paths that are not prefix-related (under `Fits`) -/
+theorem addValueAt_frame_steps_str (d : AMap Node) (p q : String) (v : Node) (hq : q ≠ "") (hf : Fits d (splitPath p))
+    (h1 : ¬ pathSteps (splitPath p) <+: pathSteps (splitPath q))
+    (h2 : ¬ pathSteps (splitPath q) <+: pathSteps (splitPath p)) :
+    lookup (addValueAt d p v) q = lookup d q ∨ (lookup d q = none ∧ lookup (addValueAt d p v) q = some Node.null) := by
+  simp only [lookup, if_neg hq, addValueAt]
+  exact lookupSegs_addAtSegs_frame_steps d _ _ v hf h1 h2
+
+/-- frame (remove) on path strings, every pair of paths that are not prefix-related -/
+theorem removeAt_frame_str (d : AMap Node) (p q : String)
+    (h1 : ¬ pathSteps (splitPath p) <+: pathSteps (splitPath q))
+    (h2 : ¬ pathSteps (splitPath q) <+: pathSteps (splitPath p)) :
+    lookup (removeAt d p) q = lookup d q := by
+  by_cases hq : q = ""
+  · simp [lookup, hq]
+  · simp only [lookup, if_neg hq, removeAt]
+    exact lookupSegs_removeAtSegs_frame_steps d _ _ h1 h2
+
+/-- BELOW the written path: after `AddValueAt(path, {c})`, a lookup that continues past `path`
+    (`ToPath(path, sub)`) continues inside the written container — together with set-get (at the
+    path) and the frame laws (beside the path) this determines `Lookup` after a write everywhere
+    except on proper prefixes of the path. Every path string. -/
+theorem lookup_addValueAt_below (d c : AMap Node) (path sub : String) (hp : path ≠ "") (hs : sub ≠ "") :
+    lookup (addValueAt d path (.cont c)) (toPath path sub) = lookup c sub := by
+  simp only [lookup, if_neg (gap_toPath_ne_empty hp sub), if_neg hs, addValueAt, gap_splitPath_toPath hp]
+  exact lookupSegs_addAtSegs_below _ _ d c (splitPath_ne_nil path) (splitPath_ne_nil sub)
+
+/-- … and below a written leaf or list there is nothing to find by key steps -/
+theorem lookup_addValueAt_below_noncont (d : AMap Node) (v : Node) (path sub : String) (hp : path ≠ "")
+    (hv : ∀ c, v ≠ .cont c) : lookup (addValueAt d path v) (toPath path sub) = none := by
+  simp only [lookup, if_neg (gap_toPath_ne_empty hp sub), addValueAt, gap_splitPath_toPath hp]
+  exact lookupSegs_addAtSegs_below_noncont _ _ d v (splitPath_ne_nil path) (splitPath_ne_nil sub) hv
+
+/-- the list-builder steps of a HISTORY (`bstep d (.listSet path i v)` etc. go through `updateAt`):
+    what `Lookup(path)` finds afterwards is `f` applied to what it found before, for every path and
+    every document — so `list_set_*`, `list_append`, … above are laws of history steps, not only of
+    bare lists. -/
+theorem lookup_updateAt (d : AMap Node) (path : String) (f : Node → Node) :
+    lookup (updateAt d path f) path = (lookup d path).map f := by
+  by_cases hp : path = ""
+  · simp [lookup, hp]
+  · simp only [lookup, if_neg hp, updateAt]
+    exact lookupSegs_updateAtSegs _ d f
+
+/-- `l := Lookup(path).(List); l.Set(i, v)` as a step of a history: the list found at `path` afterwards is
+    `listSet` of the list found before (length `max len (i+1)`, slot `i` holds `v`, pads are null by
+    `list_set_*`); Append and Clear likewise; in-range MustSet is `List.set`. -/
+theorem bstep_list_lookup (d : AMap Node) (path : String) (xs : List Node) (i : Nat) (v : Node)
+    (h : lookup d path = some (.list xs)) :
+    (∃ d', bstep d (.listSet path i v) = .ok d' ∧ lookup d' path = some (.list (listSet xs i v))) ∧
+    (∃ d', bstep d (.listAppend path v) = .ok d' ∧ lookup d' path = some (.list (xs ++ [v]))) ∧
+    (∃ d', bstep d (.listClear path) = .ok d' ∧ lookup d' path = some (.list [])) ∧
+    (i < xs.length → ∃ d', bstep d (.listMustSet path i v) = .ok d' ∧ lookup d' path = some (.list (xs.set i v))) ∧
+    (xs.length ≤ i → bstep d (.listMustSet path i v) = .panic) := by
+  refine ⟨⟨_, rfl, ?_⟩, ⟨_, rfl, ?_⟩, ⟨_, rfl, ?_⟩, ?_, ?_⟩
+  · rw [lookup_updateAt, h]; rfl
+  · rw [lookup_updateAt, h]; rfl
+  · rw [lookup_updateAt, h]; rfl
+  · intro hi
+    refine ⟨updateAt d path (onList fun xs => xs.set i v), by simp [bstep, h, hi], ?_⟩
+    rw [lookup_updateAt, h]; rfl
+  · intro hi
+    have : ¬ i < xs.length := by omega
+    simp [bstep, h, this]
+
+/-- a list step aimed at a path where there is no list changes nothing that `Lookup(path)` sees -/
+theorem bstep_list_absent (d : AMap Node) (path : String) (i : Nat) (v : Node) (h : lookup d path = none) :
+    lookup (updateAt d path (onList fun xs => listSet xs i v)) path = none := by
+  rw [lookup_updateAt, h]; rfl
+
+/-- Walk(CompactFn) twice is Walk(CompactFn) once -/
+theorem compact_idem (d : AMap Node) : compactKvs (compactKvs d) = compactKvs d := compactKvs_idem d
+
+/-- non-vacuity: below / list step on concrete documents -/
+theorem nonvacuous_below_and_list_step :
+    lookup (addValueAt [] "a.l[1]" (.cont [("x", .cont [("y", .leaf ⟨"int", "1"⟩)])])) (toPath "a.l[1]" "x.y")
+      = some (.leaf ⟨"int", "1"⟩) ∧
+    bstep [("a", .cont [("l", .list [Node.null])])] (.listSet "a.l" 2 (.leaf ⟨"int", "7"⟩)) =
+      .ok [("a", .cont [("l", .list [Node.null, Node.null, .leaf ⟨"int", "7"⟩])])] := by
+  decide +kernel
 
 end Ytk.C03
